@@ -623,6 +623,11 @@ class SkelEval(Eval):
             return Tok(str(v))
         if p == 'Ident::new_raw':
             return Tok('r#' + str(self.ev(args[0])))
+        if p in ('Literal::f64_unsuffixed', 'Literal::f32_unsuffixed'):
+            v_ = self.ev(args[0])
+            v_ = v_.value if isinstance(v_, Num) else v_
+            t_ = repr(float(v_))
+            return Tok(t_ if ('.' in t_ or 'e' in t_ or 'inf' in t_ or 'nan' in t_) else t_ + '.0')      # proc-macro2 prints a float literal with a decimal point
         if p.startswith('Literal::') and p.endswith('unsuffixed'):
             return Tok(str(int(self.ev(args[0]))))
         if p == 'Literal::string':
